@@ -331,3 +331,39 @@ func c08nullElements(c *Ctx, pkg string) {
 	sort.Strings(bad)
 	c.R.Check(len(bad) == 0, rule, pkg+"#null-elements", "a method is called on reflect.TypeOf(element of a decoded map/slice) only where the element was found non-nil (nil test or successful type assertion dominating the call)", "-", fmt.Sprintf("%d sites; %s", sites, strings.Join(bad, "; ")), bad, sites+1)
 }
+
+// c08noBypass (R11, round 5): nothing decodes straight into the typed target. Inside core/mapping a JSON text found in
+// the input (a map or slice given as a string) is decoded into a generic container (*[]any, *map[string]any, *any) and
+// then filled through the validating unmarshaller, like every other value. A decode whose target is the field itself
+// (reflect.Value.Addr().Interface()) lets encoding/json fill nested structs directly: their range/options/required/
+// default declarations are never looked at (`M map[string]Inner` given as a JSON string accepted {"a":100} for
+// `a range=[1:5]` and an absent required member).
+func c08noBypass(c *Ctx, pkg string) {
+	rule := "C08.R11"
+	var bad []string
+	sites := 0
+	for _, f := range c.P.AllFuncs(pkg) {
+		for _, b := range f.Blocks {
+			for _, ins := range b.Instrs {
+				call, ok := ins.(ssa.CallInstruction)
+				if !ok {
+					continue
+				}
+				nm := calleeName(call.Common())
+				if !(strings.HasPrefix(nm, mod+"core/jsonx.Unmarshal") || nm == "encoding/json.Unmarshal" || nm == "(*encoding/json.Decoder).Decode") {
+					continue
+				}
+				sites++
+				args := call.Common().Args
+				tgt := args[len(args)-1]
+				for _, d := range reachingDefs(tgt, f, 0) {
+					if dc, ok := d.(*ssa.Call); ok && calleeName(dc.Common()) == "(reflect.Value).Interface" {
+						bad = append(bad, fmt.Sprintf("%s: %s decodes a JSON text straight into the typed target (reflect.Value.…Interface()): nested members are filled by encoding/json, their declared constraints are never checked", c.P.Pos(ins.Pos()), funcDisplay(f)))
+					}
+				}
+			}
+		}
+	}
+	sort.Strings(bad)
+	c.R.Check(len(bad) == 0 && sites >= 3, rule, pkg+"#decode-targets", "every JSON decode inside the unmarshaller targets a generic container that is then filled through the validating path, never the typed field itself", "-", fmt.Sprintf("%d decode sites; %s", sites, strings.Join(bad, "; ")), bad, sites)
+}
